@@ -39,7 +39,7 @@ class table__l_o_c_a(DefaultTable.DefaultTable):
 
     def compile(self, ttFont):
         try:
-            max_location = max(self.locations)
+            max_location = max(self.locations, default=0)
         except AttributeError:
             self.set([])
             max_location = 0
